@@ -55,6 +55,20 @@ pub fn c_decode_once(alist: &[u8], implementation: &[u8], llrs: &[f64], limit: u
     Some((ret, out.to_vec()))
 }
 
+/// one decode through a freshly constructed C handle, f32 entry point
+pub fn c_decode_once_f32(alist: &[u8], implementation: &[u8], llrs: &[f32], limit: u32, out_len: usize) -> Option<(i32, Vec<u8>)> {
+    let (ca, ci, cp) = (cs(alist), cs(implementation), cs(b""));
+    let h = unsafe { ldpc_toolbox_decoder_ctor_alist_string(ca.as_ptr(), ci.as_ptr(), cp.as_ptr()) };
+    if h.is_null() {
+        return None;
+    }
+    let mut out = vec![0xAAu8; out_len].into_boxed_slice();
+    let l32: Box<[f32]> = llrs.to_vec().into_boxed_slice();
+    let ret = unsafe { ldpc_toolbox_decoder_decode_f32(h, out.as_mut_ptr(), out_len, l32.as_ptr(), l32.len(), limit) };
+    unsafe { ldpc_toolbox_decoder_dtor(h) };
+    Some((ret, out.to_vec()))
+}
+
 /// one decode through a C handle built by the FILE constructor
 pub fn c_decode_once_file(path: &str, implementation: &[u8], llrs: &[f64], limit: u32, out_len: usize) -> Option<(i32, Vec<u8>)> {
     let (cpath, ci, cp) = (cs(path.as_bytes()), cs(implementation), cs(b""));
@@ -149,6 +163,66 @@ fn file_history_case(l: &mut Local, rng: &mut Rng, names: &[String]) {
             }
         }
     }
+    // the hardest replacement to notice: new contents of the SAME byte length with the SAME modification time
+    // (cp -p, rsync -t, a restore from backup): two columns of equal weight and equal index width swap places
+    for _attempt in 0..6 {
+        let m = genm::decoder_matrix(rng, 5, 9);
+        let cols = m.col_lists();
+        let pair = (0..m.cols).flat_map(|a| (a + 1..m.cols).map(move |b| (a, b))).find(|&(a, b)| cols[a].len() == cols[b].len() && cols[a] != cols[b]);
+        let Some((a, b)) = pair else { continue };
+        let e2: Vec<(usize, usize)> = m.e.iter().map(|&(r, c)| (r, if c == a { b } else if c == b { a } else { c })).collect();
+        let m2 = genm::Mat::new(m.rows, m.cols, e2, "columns-swapped");
+        let (t1, t2) = (m.to_sparse().alist(), m2.to_sparse().alist());
+        if t1.len() != t2.len() || t1 == t2 {
+            continue;
+        }
+        std::fs::write(&path, &t1).expect("write alist");
+        let Ok(mtime) = std::fs::metadata(&path).and_then(|x| x.modified()) else { break };
+        let name = rng.pick(names).clone();
+        let im = DecoderImplementation::from_str(&name).expect("name");
+        let cw = genm::random_codeword(rng, &m);
+        let llrs = genm::llr_vector(rng, m.cols, 7, Some(&cw));
+        mark(&format!("file history same-size same-mtime {} {}x{}", name, m.rows, m.cols));
+        // first construction reads t1
+        let _ = c_decode_once_file(&path, name.as_bytes(), &llrs, 5, m.cols);
+        std::fs::write(&path, &t2).expect("write alist");
+        if let Ok(f) = std::fs::OpenOptions::new().write(true).open(&path) {
+            let _ = f.set_modified(mtime);
+        }
+        let h2 = m2.to_sparse();
+        let mut judged = false;
+        for _ in 0..6 {
+            let llrs = genm::llr_vector(rng, m.cols, 7, Some(&cw));
+            let want2 = im.build_decoder(h2.clone()).decode(&llrs, 5);
+            let want1 = im.build_decoder(m.to_sparse()).decode(&llrs, 5);
+            if format!("{:?}", want1) == format!("{:?}", want2) {
+                continue; // this input does not tell the two matrices apart
+            }
+            let (wret, wword) = match &want2 {
+                Ok(o) => (o.iterations as i32, o.codeword.clone()),
+                Err(o) => (-1, o.codeword.clone()),
+            };
+            l.eval();
+            judged = true;
+            match c_decode_once_file(&path, name.as_bytes(), &llrs, 5, m.cols) {
+                None => l.violation("file constructor returns null for a valid alist file", m2.json().set("implementation", name.clone())),
+                Some((ret, out)) => {
+                    if ret != wret || out != wword {
+                        l.violation(
+                            "a decoder built by the file constructor does not use the matrix the file contains now (contents replaced keeping length and modification time)",
+                            m2.json().set("implementation", name.clone()).set("c_return", ret).set("c_output", out).set("rust", format!("{:?}", want2)),
+                        );
+                    } else {
+                        l.count("file_replaced_same_size_same_mtime");
+                    }
+                }
+            }
+            break;
+        }
+        if judged {
+            break;
+        }
+    }
     let _ = std::fs::remove_file(&path);
 }
 
@@ -230,6 +304,25 @@ fn decoder_case(l: &mut Local, m: &Mat, names: &[String], rng: &mut Rng, via_fil
             let use_f32 = rng.chance(0.4);
             if use_f32 {
                 llrs = llrs.iter().map(|&x| x as f32 as f64).collect();
+            }
+            // "every buffer contents": now and then two or three infinite LLRs (saturated demodulator outputs); they
+            // are exactly representable in both widths, so the f32 entry point must behave as its f64 widening
+            if rng.chance(0.06) && llrs.len() >= 3 {
+                for _ in 0..rng.range(2, 3) {
+                    let i = rng.below(llrs.len());
+                    llrs[i] = if rng.coin() { f64::INFINITY } else { f64::NEG_INFINITY };
+                }
+                // the reference is whatever the Rust decoder does with this input; if it panics there is nothing to
+                // compare with (and nothing is claimed)
+                let dep: Vec<f64> = match &punct {
+                    None => llrs.clone(),
+                    Some(p) => p.depuncture(&llrs).unwrap(),
+                };
+                if guard(|| im.build_decoder(h.clone()).decode(&dep, 2)).is_err() {
+                    l.count("rust_decoder_panics_on_infinite_input_case_skipped");
+                    continue;
+                }
+                l.count("calls_with_infinite_llrs");
             }
             let limit = *rng.pick(&[0u32, 1, 1, 2, 5, 20]);
             let rl = rng.range(1, m.cols);
@@ -629,7 +722,7 @@ fn gen_c_cases(run: &mut Run, dir: &str) {
 }
 
 pub fn run(run: &mut Run, extra: &[String]) {
-    run.rule = "exported ldpc_toolbox_* symbols called through extern \"C\" declarations in a child process (an abort inside the C interface is observed, not fatal): decoder = all 36 names on the textbook matrix and random matrices (string and file constructors, padded/unpadded alists, puncturing patterns of length 1..8 dividing n with >= 1 kept block, none), histories of 2..6 calls on ONE handle (f64 and f32 entry points, f32 values representable, limits {0,1,2,5,20}, output_len in {n, k, 1, random}) each compared with a FRESH Rust decoder on the depunctured LLRs; encoder = staircase and dense-tail matrices, 4 messages per handle vs Rust Encoder + Puncturer; constructors: null for malformed alists (judged against the Rust parser), malformed patterns (\"1,2\", \"1,,0\", \"a\", trailing comma, spaces, non-UTF-8 bytes), unknown names (case, padding whitespace, HL+flooding-only), unreadable files, singular tail (encoder only), non-null for valid controls and all 36 names; exactly sized heap buffers; C driver under clang ASan/UBSan and valgrind memcheck replays generated cases from C through the shipped header; non-trivial = repeated call on a handle / encode / constructor case".into();
+    run.rule = "exported ldpc_toolbox_* symbols called through extern \"C\" declarations in a child process (an abort inside the C interface is observed, not fatal): decoder = all 36 names on the textbook matrix and random matrices (string and file constructors, padded/unpadded alists, puncturing patterns of length 1..8 dividing n with >= 1 kept block, none), histories of 2..6 calls on ONE handle (f64 and f32 entry points, f32 values representable, 6 % of the calls with two or three infinite LLRs, limits {0,1,2,5,20}, output_len in {n, k, 1, random}) each compared with a FRESH Rust decoder on the depunctured LLRs; encoder = staircase and dense-tail matrices, 4 messages per handle vs Rust Encoder + Puncturer; constructors: null for malformed alists (judged against the Rust parser), malformed patterns (\"1,2\", \"1,,0\", \"a\", trailing comma, spaces, non-UTF-8 bytes), unknown names (case, padding whitespace, HL+flooding-only), unreadable files, a file replaced by other contents (also of the same length with the same modification time) between two constructor calls on one path, singular tail (encoder only), non-null for valid controls and all 36 names; exactly sized heap buffers; C driver under clang ASan/UBSan and valgrind memcheck replays generated cases from C through the shipped header; non-trivial = repeated call on a handle / encode / constructor case".into();
     run.assumptions = vec![
         "inputs outside the stated contract (output_len > n, wrong llrs_len, pattern not dividing n, all-zero pattern) are not generated".into(),
     ];
